@@ -105,7 +105,7 @@ ErrLua(fn) == <<"<ERR:lua:", fn, ">">>
 ErrTimeout(fn) == <<"<ERR:timeout:", fn, ">">>
 
 (* ---------------- the evaluator ---------------------------------------- *)
-\* X = [lib, need, o, Dev]  (fixed during one expand() call)
+\* X = [lib, need, o, Dev, enwikt]  (fixed during one expand() call)
 RECURSIVE Exp(_, _, _, _, _), ExpItem(_, _, _, _, _), ExpArgsUnexp(_, _, _, _, _, _),
           BindArgs(_, _, _, _, _, _, _), ExpSwitch(_, _, _, _, _, _)
 
@@ -210,8 +210,9 @@ ExpItem(it, f, ea, st, X) ==
              body == IF marker THEN R(<<"<MARK:", it.name, ">">>, s3)
                      ELSE IF it.name \notin DOMAIN X.lib
                      THEN R(<<"[[:Template:", it.name, "]]">>, s3)
-                     ELSE Exp(IncludablePart(X.lib[it.name]), nf, ea, s3, X)
-                          \* (expand_all or need_pre_expand-and-not-en-wiktionary: en wiktionary here)
+                     ELSE Exp(IncludablePart(X.lib[it.name]), nf, ea \/ (it.name \in X.need /\ ~X.enwikt), s3, X)
+                          \* (core.py:1632-1643: expand_all, or the template needs pre-expansion and the
+                          \*  context is not the English Wiktionary)
              t1 == AddNL(body.out)
              s4 == IF X.o.pfn # "none" /\ t1 # <<>>
                    THEN Hook(body.st, [hook |-> "post_template_fn", name |-> it.name, args |-> ba.b, t |-> t1])
